@@ -91,7 +91,9 @@ CHECKS = {
         'sequence of subscribe / train calls (refused ones included) every input port is fed by at most one output and by one '
         'exactly when it is registered. Refuted with witnesses (known findings): single publisher per port through placeholders; '
         'failing train/collapse leaving partial state. The other invariants (apply-xor-train, one trained member per group, '
-        'trained workers publish nothing) are enforced by the property oracle on every generated sequence, not by theorems.',
+        'trained workers publish nothing, only existing output ports published) are proved for direct wiring after any call '
+        'sequence as well (C11_topology_direct_partial) and enforced by the property oracle on every generated sequence, '
+        'placeholders included.',
         BASE_NOTE + 'Of the destructor-driven registry edits only the deterministic one is modelled (a duplicate Subscription dropped by an output set unregisters its port); garbage-collector timing and placeholder cycles are outside the model.',
         'DESIGN.md section 5 C11',
     ),
